@@ -258,7 +258,7 @@ def _json_roundtrip(o):
   return json.loads(json.dumps(o, default=json_utils.get_json_type))
 
 
-def execute(prop, scn, known_sigs=(), oracles=None, stop=True):
+def execute(prop, scn, known_sigs=(), oracles=None, stop=True, extra=None):
   """Run one scenario; returns Ctx.result()."""
   tf = tf_setup()
   ctx = Ctx(prop, known_sigs, stop_on_violation=stop)
@@ -270,7 +270,7 @@ def execute(prop, scn, known_sigs=(), oracles=None, stop=True):
     oracle.start()
     for i, op in enumerate(scn["ops"]):
       ctx.step = i
-      apply_op(ctx, world, oracle, op)
+      apply_op(ctx, world, oracle, op, extra)
     ctx.step = len(scn["ops"])
     oracle.finish()
   except StopRun:
@@ -281,7 +281,7 @@ def execute(prop, scn, known_sigs=(), oracles=None, stop=True):
   return ctx.result()
 
 
-def apply_op(ctx, w, oracle, op):
+def apply_op(ctx, w, oracle, op, extra=None):
   tf = tf_setup()
   k = op["k"]
   ctx.log("op", k)
@@ -390,6 +390,8 @@ def apply_op(ctx, w, oracle, op):
       w.qs[qi] = q2
       w.traced.pop(qi, None)
     oracle.on_restart(qi, op, ok)
+  elif extra is not None and extra(ctx, w, oracle, op):
+    pass
   else:
     raise HarnessError("unknown op " + k)
 
